@@ -98,16 +98,22 @@ PROPS = {
     },
     "C06": {
         "level": "other",
-        "explanation": "Narrow claim on the hand-written forwarding code. Almost all propagation in the crate is `?` on RuntimeResult and the early-return macros, which the type system makes impossible to skip. Decided here by Verus contracts on real text: the macros xraise!/forward_err! return the error they receive; the search-budget closure of XGenerator::iter lets the budget's violation win and otherwise returns the element unchanged; the element closures of the adaptors Aggregate, Filter, TakeWhile, SkipUntil hand on a violation of the incoming element and a violation or error value answered by the user callback, unchanged and never as None. Decided by enumeration: every function of the crate that inspects a Result's failure case other than by `?`/macros is listed with its classification (documented handler, library-error conversion, forwarding arm with pinned text), with the number of sites pinned. NOT decided: leftmost-error order of constructions (std collect semantics), that a user function yields an unused erroring argument, that collections never contain errors, the other adaptors (SuccessorsUntil, Map, Zip, Group, Windows, WithCount, Product).",
+        "explanation": "Narrow claim on the hand-written forwarding code. Almost all propagation in the crate is `?` on RuntimeResult and the early-return macros, which the type system makes impossible to skip. Decided here by Verus contracts on real text: the macros xraise!/forward_err! return the error they receive; the search-budget closure of XGenerator::iter lets the budget's violation win and otherwise returns the element unchanged; the element closures of the adaptors Aggregate, Filter, TakeWhile, SkipUntil hand on a violation of the incoming element and a violation or error value answered by the user callback, unchanged and never as None. Decided by enumeration: every function of the crate that inspects a Result's failure case other than by `?`/macros is listed with its classification (documented handler, library-error conversion, forwarding arm with pinned text), with the number of sites pinned. The element closures of SuccessorsUntil, WithCount, Windows and Group (units of C16) carry the same clauses: a violation of the incoming element or of the search budget is the element yielded, an error value of the element or of the user callback is the element yielded, and the adaptor's state is untouched. NOT decided: leftmost-error order of constructions (std collect semantics), that a user function yields an unused erroring argument, that collections never contain errors, the adaptors Map, Zip, Product.",
         "units": [
             {"kind": "verus", "unit": "fwd"},
             {"kind": "verus", "unit": "errh"},
             {"kind": "scan", "spec": "inspect_sites"},
+            # the element closures of further adaptors (units built for C16): their contracts state, for every incoming
+            # element, that a violation and an error value (of the element or of the user callback) are handed on
+            {"kind": "verus", "unit": "gsucc"},
+            {"kind": "verus", "unit": "gwithcount"},
+            {"kind": "verus", "unit": "gwindows"},
+            {"kind": "verus", "unit": "ggroup"},
         ],
         "unreached": [
             "leftmost-error order in construction / argument evaluation (runtime_scope.rs: std's collect on nested Results)",
             "user-function call path: whether an erroring argument that the body never uses is propagated",
-            "the adaptors SuccessorsUntil, Map, Zip, Group, Windows, WithCount, Product of XGenerator::_iter; mapping/set/sequence insertion natives",
+            "the adaptors Map, Zip, Product of XGenerator::_iter; mapping/set/sequence insertion natives",
         ],
         "assumptions": ["the user callback is represented by a ghost log of its answer (stub contract of eval_func_with_values)"],
     },
@@ -314,8 +320,8 @@ CLAIMS = {
     "C06": {
         "engine": "vx+verus",
         "technique": "contract-based deductive verification: Verus contracts on the real early-return macros and on the forwarding prefixes of generator adaptor closures (ghost log of the callback's answer); enumeration of every Result-inspection site",
-        "text": "Narrow (the hand-written forwarding code only): xraise!/forward_err!, the search-budget closure and four adaptor closures are proved to hand on, unchanged and never as a value or None, every violation and error value they receive; all other places that inspect a failure case are enumerated and classified, with site counts and forwarding arms pinned.",
-        "note": "Level `other`: one mechanism of a broad property. Leftmost order, unused erroring arguments of user functions, collections never containing errors and seven further adaptors are listed as unreached.",
+        "text": "Narrow (the hand-written forwarding code only): xraise!/forward_err!, the search-budget closure and eight adaptor closures are proved to hand on, unchanged and never as a value or None, every violation and error value they receive; all other places that inspect a failure case are enumerated and classified, with site counts and forwarding arms pinned.",
+        "note": "Level `other`: one mechanism of a broad property. Leftmost order, unused erroring arguments of user functions, collections never containing errors and three further adaptors are listed as unreached.",
     },
     "C07": {
         "engine": "vx+verus",
